@@ -44,6 +44,8 @@ type zOut struct {
 	Notes []string
 	Notes2 []string
 	Skipped map[int]bool // ops whose request was lost and NOT re-sent (the client had already noticed the disconnect): no effect
+	Fired map[int]bool // op index -> the connection of the op's client was really cut during the op
+	AdvAfter map[int]int // op index -> milliseconds the harness itself spent inside a composite op (the machine's clock is advanced by them)
 }
 
 var zSegs = map[string]int{"a": 1, "b": 2, "c": 3, "lock": 9, "m": 8}
@@ -139,14 +141,16 @@ func zRun(t *testing.T, in zIn) zOut {
 		sort.Ints(r)
 		return r
 	}
-	for _, o := range in.Ops {
+	for oi, o := range in.Ops {
 		res := "ZOk"
+		opStart := time.Now()
 		var z *zkDCS
 		if o.C >= 1 && o.C <= len(cl) {
 			z = cl[o.C-1]
 		}
 		switch o.Op {
 		case "create":
+			lostFired := false
 			if o.Lost {
 				// the TCP connection is cut when the create request arrives; nothing is applied; the session survives
 				sid := z.conn.SessionID()
@@ -154,7 +158,7 @@ func zRun(t *testing.T, in zIn) zOut {
 				srv.SetHook(func(ev vk.ZKRequestEvent) vk.ZKAction {
 					act := vk.ZKProceed
 					if ev.Session == sid && ev.Op == vk.ZKOpCreate {
-						once.Do(func() { act = vk.ZKDropBeforeApply })
+						once.Do(func() { act = vk.ZKDropBeforeApply; lostFired = true })
 					}
 					return act
 				})
@@ -170,6 +174,15 @@ func zRun(t *testing.T, in zIn) zOut {
 					time.Sleep(20 * time.Millisecond)
 				}
 				time.Sleep(60 * time.Millisecond)
+				if lostFired {
+					// the client saw its connection go: zk.go forgets every lock it believed to hold
+					if out.Fired == nil {
+						out.Fired = map[int]bool{}
+					}
+					out.Fired[oi] = true
+					out.Res = append(out.Res, "ZOk")
+					out.Told = append(out.Told, snapshotTold())
+				}
 				if res == "ZErr" {
 					// the client had already seen the disconnect and did not re-send: the operation failed without effect
 					if out.Skipped == nil {
@@ -307,6 +320,10 @@ func zRun(t *testing.T, in zIn) zOut {
 						once.Do(func() {
 							r2 = z2.AcquireLock(o.P)
 							act = vk.ZKDropBeforeApply
+							if out.Fired == nil {
+								out.Fired = map[int]bool{}
+							}
+							out.Fired[oi] = true
 						})
 					}
 					return act
@@ -324,6 +341,10 @@ func zRun(t *testing.T, in zIn) zOut {
 				}
 			}
 			out.Res = append(out.Res, "(ZBool "+vk.B(r2)+")")
+			if out.Fired[oi] {
+				out.Res = append(out.Res, "ZOk") // the drop of c's connection, before c's answer
+				out.Told = append(out.Told, snapshotTold())
+			}
 			res = "(ZBool " + vk.B(r1) + ")"
 			if strings.Trim(o.P, "/") == "lock" {
 				told[o.V], told[o.C] = r2, r1
@@ -411,6 +432,15 @@ func zRun(t *testing.T, in zIn) zOut {
 		}
 		if o.Op == "cutoff" {
 			out.Told = append(out.Told, snapshotTold(), snapshotTold())
+		}
+		// the waits inside a composite op are real time for the lock cache: tell the machine
+		if o.Op == "race" || o.Op == "lostrace" || o.Op == "cutoff" || o.Op == "expire" || o.Lost {
+			if out.AdvAfter == nil {
+				out.AdvAfter = map[int]int{}
+			}
+			out.AdvAfter[oi] = int(time.Since(opStart).Milliseconds())
+			out.Res = append(out.Res, "ZOk")
+			out.Told = append(out.Told, snapshotTold())
 		}
 	}
 	out.Dump = srv.Dump()
@@ -526,27 +556,42 @@ func zCase(in zIn, out zOut) string {
 	}
 	ops := []string{}
 	ri := 0
-	for _, o := range in.Ops {
-		if o.Op == "race" || o.Op == "lostrace" {
+	for oi, o := range in.Ops {
+		drop := fmt.Sprintf("(ODrop %d%%N)", o.C)
+		switch {
+		case o.Op == "lostrace" && out.Fired[oi]:
+			ops = append(ops, zOpGal(zOp{Op: "acquire", C: o.V, P: o.P}), drop, zOpGal(zOp{Op: "acquire", C: o.C, P: o.P}))
+			ri += 3
+		case o.Op == "race" || o.Op == "lostrace":
 			ops = append(ops, zOpGal(zOp{Op: "acquire", C: o.V, P: o.P}), zOpGal(zOp{Op: "acquire", C: o.C, P: o.P}))
 			ri += 2
-			continue
-		}
-		if o.Op == "cutoff" {
+		case o.Lost && out.Fired[oi]:
+			// the drop's result is recorded before the op's own result (a create does not read the lock cache)
+			ri++
+			if out.Skipped[ri] {
+				ops = append(ops, drop, "(OAdvance 0)")
+			} else {
+				ops = append(ops, drop, zOpGal(o))
+			}
+			ri++
+		case o.Op == "cutoff":
 			second := zOpGal(zOp{Op: "acquire", C: o.V, P: o.P})
 			if o.V == o.C {
 				second = "(OAdvance 0)"
 			}
 			ops = append(ops, zOpGal(zOp{Op: "expire", C: o.C}), second, zOpGal(zOp{Op: "acquire", C: o.C, P: o.P}))
 			ri += 3
-			continue
-		}
-		if out.Skipped[ri] {
+		case out.Skipped[ri]:
 			ops = append(ops, "(OAdvance 0)")
-		} else {
+			ri++
+		default:
 			ops = append(ops, zOpGal(o))
+			ri++
 		}
-		ri++
+		if ms, ok := out.AdvAfter[oi]; ok {
+			ops = append(ops, zOpGal(zOp{Op: "advance", Dt: ms}))
+			ri++
+		}
 	}
 	return vk.T(vk.Z(int64(in.TTL)), vk.L(cs), vk.L(ops), vk.L(out.Res))
 }
